@@ -10,7 +10,7 @@ From Coq Require Import Reals ZArith List.
 From PyLib Require Import PyVal PyBuiltins Ideal.
 From Gen Require Import M_base M_Angle M_CurveFitting.
 From Coq Require Import Permutation.
-From Proofs.C17 Require Import C17_tac C17_sums C17_fits C17_general C17_corr C17_main C17_ctor C17_more.
+From Proofs.C17 Require Import C17_tac C17_sums C17_fits C17_general C17_corr C17_main C17_ctor C17_more C17_lsq C17_ctorN.
 Import ListNotations.
 Open Scope R_scope.
 
@@ -239,6 +239,45 @@ Proof.
   - exact (menu_general_eq_linear x xs y ys Hl).
 Qed.
 
+(* INPUT FORMS FOR TABLES OF ANY LENGTH.  Whatever the object under construction holds (obj11 of
+   arbitrary values; the model passes eleven None fields), the constructor stores cf_of xs ys (the
+   data and their power sums) for: two lists, two tuples (equal lengths >= 2), interleaved scalars
+   x0,y0,x1,y1,... (il l; >= 2 points; an odd trailing scalar is dropped), and a copy of another
+   object's lists; set() on an existing object (here: one already holding other data) does the
+   same.  Induction over the generated loops of CurveFitting.set. *)
+Theorem C17_input_forms_any_length :
+  forall (v0 v1 v2 v3 v4 v5 v6 v7 v8 v9 v10 : val R) (xs ys : list R) (l : list (R * R)) (z : R) (xs0 ys0 : list R),
+  length xs = length ys -> (2 <= length xs)%nat -> (2 <= length l)%nat ->
+  let o := obj11 v0 v1 v2 v3 v4 v5 v6 v7 v8 v9 v10 in
+  CurveFitting___init__ Rops o (VTuple [VList (fl xs); VList (fl ys)]) = cf_of xs ys
+  /\ CurveFitting___init__ Rops o (VTuple [VTuple (fl xs); VTuple (fl ys)]) = cf_of xs ys
+  /\ CurveFitting___init__ Rops o (VTuple (il l)) = cf_of (map fst l) (map snd l)
+  /\ CurveFitting___init__ Rops o (VTuple (il l ++ [VFloat z])) = cf_of (map fst l) (map snd l)
+  /\ CurveFitting___init__ Rops o (VTuple [cf_of xs ys]) = cf_of xs ys
+  /\ CurveFitting_set Rops (cf_of xs0 ys0) (VTuple [VList (fl xs); VList (fl ys)]) = VTuple [cf_of xs ys; VNone]
+  /\ CurveFitting_set Rops (cf_of xs0 ys0) (VTuple (il l)) = VTuple [cf_of (map fst l) (map snd l); VNone]
+  /\ CurveFitting_set Rops (cf_of xs0 ys0) (VTuple [cf_of xs ys]) = VTuple [cf_of xs ys; VNone].
+Proof. exact input_forms_any_length. Qed.
+
+(* the linear fit is THE least-squares line: it minimises the sum of squared residuals
+   ssr a b = sum (y - (a x + b))^2 over all lines, and is the only minimiser *)
+Theorem C17_linear_minimises : forall xs ys, length xs = length ys ->
+  TOL <= Rabs (lin_det (nR xs) (Sx xs) (Sx2 xs)) ->
+  exists a b,
+    CurveFitting_linear_fitting Rops (cf_of xs ys) = VTuple [VFloat a; VFloat b]
+    /\ (forall a' b', ssr a b xs ys <= ssr a' b' xs ys)
+    /\ (forall a' b', ssr a' b' xs ys = ssr a b xs ys -> a' = a /\ b' = b).
+Proof. exact linear_minimises. Qed.
+
+(* |r| = 1 exactly when the points are collinear (both variances non-zero) *)
+Theorem C17_r_one_iff_collinear : forall xs ys, length xs = length ys -> 0 < var_x xs -> 0 < var_y xs ys ->
+  CurveFitting_correlation_coeff Rops (cf_of xs ys) = VFloat (r_of xs ys)
+  /\ (Rabs (r_of xs ys) = 1 <-> exists al be, al <> 0 /\ ys = map (aff al be) xs).
+Proof.
+  intros xs ys Hl Hx Hy.
+  exact (conj (correlation_value xs ys Hx Hy) (r_one_iff_collinear xs ys Hl Hx Hy)).
+Qed.
+
 Redirect "C17_sums.assumptions" Print Assumptions C17_sums.
 Redirect "C17_linear_normal_equations.assumptions" Print Assumptions C17_linear_normal_equations.
 Redirect "C17_quadratic_normal_equations.assumptions" Print Assumptions C17_quadratic_normal_equations.
@@ -254,3 +293,6 @@ Redirect "C17_permutation_invariance.assumptions" Print Assumptions C17_permutat
 Redirect "C17_general_permutation_invariance.assumptions" Print Assumptions C17_general_permutation_invariance.
 Redirect "C17_noiseless_recovered.assumptions" Print Assumptions C17_noiseless_recovered.
 Redirect "C17_menu_instances.assumptions" Print Assumptions C17_menu_instances.
+Redirect "C17_input_forms_any_length.assumptions" Print Assumptions C17_input_forms_any_length.
+Redirect "C17_linear_minimises.assumptions" Print Assumptions C17_linear_minimises.
+Redirect "C17_r_one_iff_collinear.assumptions" Print Assumptions C17_r_one_iff_collinear.
